@@ -78,6 +78,7 @@ class Worklist:
 
     def __init__(self, items, ctx):
         self._order = sorted(items)
+        self._members = set(self._order)
         self._ctx = ctx
         self._pops = 0
         frame = sys._getframe(2)     # find_stable_matching (factory is frame 1)
@@ -98,22 +99,25 @@ class Worklist:
         return len(self._order)
 
     def __contains__(self, item):
-        return item in self._order
+        return item in self._members
 
     def __iter__(self):
         return iter(list(self._order))
 
     def add(self, item):
-        if item not in self._order:
+        if item not in self._members:
             self._order.append(item)
+            self._members.add(item)
             self._ctx.requeues += 1
 
     def discard(self, item):
-        if item in self._order:
+        if item in self._members:
             self._order.remove(item)
+            self._members.discard(item)
 
     def remove(self, item):
         self._order.remove(item)
+        self._members.discard(item)
 
     def pop(self):
         if not self._order:
@@ -125,7 +129,9 @@ class Worklist:
             raise Livelock("more than %d pops" % self._bound)
         self._observe(sys._getframe(1))
         idx = self._ctx.schedule.pick(self._order)
-        return self._order.pop(idx)
+        item = self._order.pop(idx)
+        self._members.discard(item)
+        return item
 
     def _observe(self, frame):
         """Diagnostics J1-J3 at every pop (read-only; never a verdict)."""
@@ -134,6 +140,8 @@ class Worklist:
         if not isinstance(matches, dict):
             self._ctx.diag["locals_unavailable"] += 1
             return
+        if len(matches) > 64:
+            return                      # diagnostics are quadratic: only on small groups
         values = list(matches.values())
         if len(set(values)) != len(values):
             self._ctx.diag["J1_not_injective_midrun"] += 1
@@ -224,8 +232,8 @@ def without_schedule():
 
 def gen_instance(rng):
     """Random candidate graph in the property's terms (refmodel instance)."""
-    mode = rng.choices(["random", "interval", "notie", "dense", "big", "largevals", "chain", "star"],
-                       weights=[4, 3, 4, 1, 2, 2, 2, 1])[0]
+    mode = rng.choices(["random", "interval", "notie", "dense", "big", "largevals", "chain", "star", "ladder"],
+                       weights=[400, 300, 400, 100, 200, 200, 200, 100, 3])[0]
     ns, nr = rng.randint(1, 6), rng.randint(1, 6)
     span = 60 if mode == "notie" else rng.choice([12, 25, 40])
     maxdur = 30 if mode == "notie" else rng.choice([3, 6, 10])
@@ -241,6 +249,8 @@ def gen_instance(rng):
         return gen_chain_instance(rng)
     if mode == "star":
         return gen_star_instance(rng)
+    if mode == "ladder":
+        return gen_ladder_instance(rng)
     s_starts = rng.sample(range(span), ns)
     r_starts = rng.sample(range(span), nr)
     storms = {s: (s, rng.randint(1, maxdur)) for s in s_starts}
@@ -307,6 +317,30 @@ def gen_chain_instance(rng):
     used_r = {r for _, r in edges}
     inst["rises"] = {r: v for r, v in rises.items() if r in used_r}
     return inst
+
+
+def gen_ladder_instance(rng):
+    """A ladder of more than a thousand storms in one connected group: storm i
+    overlaps rise i-1 and rise i; every storm strictly prefers (by duration) the
+    rise on one side and every rise strictly prefers (by start) the storm on
+    that side; the storm at the far end has a single candidate, so that its one
+    proposal displaces its neighbour, which displaces its neighbour, ... all the
+    way down (a displacement cascade as deep as the ladder).  Periodic weather
+    -- a wet spell every few hours for months -- produces exactly this."""
+    n = rng.randint(1100, 1700)
+    period = rng.choice([7, 9, 12])
+    storms, rises, edges = {}, {}, set()
+    for i in range(n):
+        dur = 5 + (i % 2)
+        s_start = period * i
+        storms[s_start] = (s_start, dur)
+        if i < n - 1:
+            r_start = period * i + 4
+            rises[r_start] = (r_start, dur)            # same duration as storm i: storm i's first choice
+            edges.add((s_start, r_start))
+        if i > 0:
+            edges.add((s_start, period * (i - 1) + 4))  # and the previous rise, closer in start to storm i
+    return {"storms": storms, "rises": rises, "edges": edges}
 
 
 def gen_star_instance(rng):
